@@ -316,6 +316,7 @@ func (s *spkSys) refBGP() *refBGP {
 }
 
 type spkCase struct {
+	NoBurst  bool            `json:"no_bursts"`
 	Preload  int             `json:"preloaded_services"`
 	Rich     bool            `json:"rich_initial_state"`
 	IgnoreEx bool            `json:"ignore_exclude_lb"`
@@ -333,7 +334,7 @@ type spkOracle struct {
 }
 
 func (o *spkOracle) mkCase(hist []verifrt.Event) spkCase {
-	c := spkCase{Prop: o.prop, Thorough: o.thorough, History: hist, Preload: o.u.Preload, IgnoreEx: o.u.IgnoreExcludeLB, Rich: o.u.Rich != nil}
+	c := spkCase{Prop: o.prop, Thorough: o.thorough, History: hist, Preload: o.u.Preload, IgnoreEx: o.u.IgnoreExcludeLB, Rich: o.u.Rich != nil, NoBurst: o.u.NoBurst}
 	var nodeNames []string
 	for n := range o.u.NodeVars {
 		nodeNames = append(nodeNames, n)
@@ -510,6 +511,7 @@ func runSpk(t *testing.T, prop string) {
 		u := spkUniverseFor(prop, c.Thorough)
 		u.Preload, u.IgnoreExcludeLB = c.Preload, c.IgnoreEx
 		if c.Rich {
+			u.NoBurst = true
 			u.Rich = [][2]int{{0, 3}, {1, 2}, {2, 6}, {3, 7}}
 			for i, cc := range u.Configs {
 				if cc.Name == "pool-restricted-advertisements" {
@@ -532,12 +534,15 @@ func runSpk(t *testing.T, prop string) {
 	for _, st := range starts {
 		u := spkUniverseFor(prop, thorough)
 		u.Preload, u.IgnoreExcludeLB = st.preload, st.ignore
+		// bursts of two user events: everywhere for C09; for C05 (wider alphabet) from the start state with one announced service
+		u.NoBurst = prop == "C05" && !(st.preload == 1 && !st.ignore) && !thorough
 		if st.preload == -1 {
 			if prop != "C05" {
 				continue
 			}
 			// a rich non-initial state: four announced services over three pools with pool-restricted advertisements
 			u.Preload = 0
+			u.NoBurst = true
 			u.Rich = [][2]int{{0, 3}, {1, 2}, {2, 6}, {3, 7}}
 			for i, c := range u.Configs {
 				if c.Name == "pool-restricted-advertisements" {
